@@ -181,7 +181,7 @@ Theorem C05_fast_continue_step :
     Z.of_nat (length B) <= srcSize ->
     let '(r, am', st', k) := decompress_fast_continue am st srcm srcSize dest (Z.of_nat (length D)) in
     r = Z.of_nat (length B) /\ k = true /\ src_at am' dest D /\
-    (0 < Z.of_nat (length B) -> st' = next_state st dest (Z.of_nat (length D))).
+    (0 < Z.of_nat (length B) -> 0 < Z.of_nat (length D) -> st' = next_state st dest (Z.of_nat (length D))).
 Proof. exact fast_continue_step. Qed.
 Print Assumptions C05_fast_continue_step.
 
